@@ -1264,7 +1264,7 @@ _FOR_LOOP = re.compile(
     r"(?:\s*,\s*(?:"
     r"(?:\(?)\s*[A-Za-z_][A-Za-z_0-9]*"
     r"(?:\s*,\s*(?:[A-Za-z_][A-Za-z_0-9]*),??)*\s*(?:\)?)"
-    r"),??)*\s*(?:\)?))\s+in\s+(.*):"
+    r"),??)*\s*(?:\)?))\s+in\s+(.*?):\s*(?:#.*)?$"
 )
 
 
